@@ -171,6 +171,111 @@ def harness(L, what, K, max_pre, max_to, sil0=False):
     return path
 
 
+# ------------------------------------------------------------------ long streams exported as raw / wav
+LONG = dict(K=70, SPW=1000)      # 70 windows of 1000 samples: more frames than any internal chunk size of 64 Ki frames
+
+
+def run_export(mods, s, data, fmt, joiner):
+    """a long, concrete, entirely active stream saved by the stream saver (and joined by the joiner), then exported"""
+    W, util = mods["workers"], mods["util"]
+    bd = LONG["SPW"] / thr.SR
+    reader = util.AudioReader(data, block_dur=bd, sr=thr.SR, sw=thr.SW, ch=thr.CH)
+    saver = W.StreamSaverWorker(reader, filename="long." + fmt, export_format=None)
+    observers, j = [], None
+    if joiner:
+        j = W.AudioEventsJoinerWorker(silence_duration=0.1, filename="longjoin." + fmt, export_format=None, sampling_rate=thr.SR,
+                                      sample_width=thr.SW, channels=thr.CH)
+        observers.append(j)
+    saver.start()
+    tw = W.TokenizerWorker(saver, observers, validator=lambda f: True, min_dur=bd, max_dur=bd * 20, max_silence=0)
+    s.private.add(id(tw._inbox))
+    tw.start_all()
+    tw.join()
+    for o in observers:
+        o.join()
+    saver.join()
+    names = [saver.export_audio()] + ([j.export_audio()] if j else [])
+    thr.neutralise([saver] + ([j] if j else []))
+    return names, [(d.start, d.end) for d in tw.detections]
+
+
+def export_expect(data, dets):
+    sil = b"\0" * (round(0.1 * thr.SR) * thr.BPS)
+    evs = [data[round(a * thr.SR) * thr.BPS:round(b * thr.SR) * thr.BPS] for a, b in dets]
+    return data, sil.join(evs)
+
+
+def export_harness(L, fmt, joiner):
+    mods = L.modules
+    data = thr.tagged_audio(LONG["K"], LONG["SPW"])
+
+    def path(e):
+        s = S.Sched(e, max_timeouts=0, max_preempt=0)
+        s.max_steps = 50 * LONG["K"] + 5000
+        fs = iostub.FS()
+        iostub.install(L, fs)
+        meta = dict(what="export", fmt=fmt, joiner=joiner)
+        fails = []
+        try:
+            names, dets = run_export(mods, s, data, fmt, joiner)
+            want = export_expect(data, dets)
+            for nm, w in zip(names, want):
+                ent = fs.files.get(nm)
+                got = None if ent is None else bytes(ent.data)
+                if got != w:
+                    fails.append("exported file %s holds %s bytes, expected %d" % (nm, None if got is None else len(got), len(w)))
+        except (S.Outcome, S.ThreadCrashed) as ex:
+            fails.append(str(ex))
+        except Exception as ex:
+            fails.append("raised %s: %s" % (type(ex).__name__, str(ex)[:80]))
+        finally:
+            s.cleanup()
+        if not fails:
+            return {"status": "ok", "schedule_len": len(s.log)}
+        return {"status": "cex", "failing": fails[:2], "cex": dict(meta, schedule=[list(x) for x in s.log])}
+    return path
+
+
+def replay_export(c):
+    import os
+    import shutil
+    import tempfile
+    import wave as _wave
+    mods = thr.load_real()
+    data = thr.tagged_audio(LONG["K"], LONG["SPW"])
+    tmp = tempfile.mkdtemp(prefix="sxv-c13-")
+    cwd = os.getcwd()
+    os.chdir(tmp)
+    s = S.Sched(None, max_timeouts=50, max_preempt=10 ** 6)
+    s.max_steps = 50 * LONG["K"] + 5000
+    s.script = [tuple(x) for x in c["schedule"]]
+    fails = []
+    try:
+        try:
+            names, dets = run_export(mods, s, data, c["fmt"], c["joiner"])
+            want = export_expect(data, dets)
+            for nm, w in zip(names, want):
+                if c["fmt"] == "wav":
+                    with _wave.open(nm, "rb") as f:
+                        got = f.readframes(-1)
+                else:
+                    got = open(nm, "rb").read()
+                if got != w:
+                    fails.append("exported file %s holds %d bytes, expected %d (stream of %d frames)" % (nm, len(got), len(w), len(data) // thr.BPS))
+        except (S.Outcome, S.ThreadCrashed) as ex:
+            fails.append(str(ex))
+        except Exception as ex:
+            fails.append("raised %s: %s" % (type(ex).__name__, str(ex)[:80]))
+        finally:
+            s.cleanup()
+    finally:
+        os.chdir(cwd)
+        shutil.rmtree(tmp, ignore_errors=True)
+    if not fails:
+        return []
+    return [("C13: exported %s file of a long stream wrong" % c["fmt"], fails[0])]
+
+
 def mk(m, meta, s, cb):
     c = dict(meta)
     c["valid"] = thr.bits_from_model(m, meta["K"]) if m is not None else [False] * meta["K"]
@@ -184,6 +289,8 @@ def replay_fn(c):
     import shutil
     import tempfile
     import wave as _wave
+    if c.get("what") == "export":
+        return replay_export(c)
     mods = thr.load_real()
     core = mods["core"]
     K = c["K"]
@@ -257,4 +364,10 @@ def run(rep):
         hn = "sched[%s,K=%d,pre=%d,to=%d%s]" % (cf["what"], cf["K"], cf["pre"], cf["to"], ",max_silence=0" if cf.get("sil0") else "")
         ex = explore(harness(L, cf["what"], cf["K"], cf["pre"], cf["to"], cf.get("sil0", False)), max_decisions=3000, path_wall_s=30)
         rep.add_exploration(hn, ex, bounds=cf)
+        tok.handle_cex(rep, hn, ex, replay_fn)
+    rep.bounds["long streams"] = "a concrete, entirely active stream of %d windows of %d samples saved, joined and exported as raw and as wav (no pre-emption, no time-out)" % (LONG["K"], LONG["SPW"])
+    for fmt, joiner in (("raw", True), ("wav", False)) if rep.tier == "quick" else (("raw", True), ("wav", True), ("raw", False)):
+        hn = "export[%s%s,%d frames]" % (fmt, ",joiner" if joiner else "", LONG["K"] * LONG["SPW"])
+        ex = explore(export_harness(L, fmt, joiner), max_decisions=3000, path_wall_s=60)
+        rep.add_exploration(hn, ex)
         tok.handle_cex(rep, hn, ex, replay_fn)
